@@ -6,10 +6,12 @@
    (5 header)                        -> result (i j)            pose_normalization_info
    (6 header)                        -> result (((a b c) (d e)) ((a b c) (d e)))   normalize_hands_3d lookups
    (7 x y)                           -> (c s)                   the in-plane rotation entries used by (4)
+   (8 shape axes cells)              -> result (cells mu std)   normalize_distribution(axis=axes), any axis tuple
+   (9 shape axes cells mu std)       -> cells                   unnormalize_distribution with statistics of (8)
    floats are binary64 words; a point is (missing (coords)); a cell is (missing value);
    header = ((name (point-name ...)) ...), names as code point lists *)
 From Coq Require Import ZArith NArith List Bool PrimFloat.
-Require Import Result Tree Num C13_Normalize C13_Norm3d C13_Lookup.
+Require Import Result Tree Num C13_Normalize C13_Norm3d C13_Lookup C13_Axes.
 Import ListNotations.
 
 Definition fl (t : tree) : float := float_of_bits (t_z t).
@@ -40,7 +42,7 @@ Definition dispatch (t : tree) : tree :=
     of_rows (normalize F_ops (t_nat (t_nth 1 t)) (t_nat (t_nth 2 t)) (t_nat (t_nth 3 t)) (fl (t_nth 4 t)) (t_rows (t_nth 5 t)))
   else if (op =? 2)%Z then
     let G := t_nat (t_nth 1 t) in
-    let r := normalize_distribution F_ops (modkey G) G (t_cells (t_nth 2 t)) in
+    let r := normalize_distribution F_ops (modkey G) (modkey G) G (t_cells (t_nth 2 t)) in
     Nd [of_cells (fst r); of_cells (fst (snd r)); of_cells (snd (snd r))]
   else if (op =? 3)%Z then
     let G := t_nat (t_nth 1 t) in
@@ -54,4 +56,13 @@ Definition dispatch (t : tree) : tree :=
     of_result (fun lr => Nd [of_plane_line (fst lr); of_plane_line (snd lr)]) (hands_3d_info (t_header (t_nth 1 t)))
   else if (op =? 7)%Z then
     let cs := zrot_closed F_ops (fl (t_nth 1 t)) (fl (t_nth 2 t)) in Nd [of_fl (fst cs); of_fl (snd cs)]
+  else if (op =? 8)%Z then
+    let shape := t_nats (t_nth 1 t) in let axes := t_nats (t_nth 2 t) in
+    if broadcast_ok shape axes then
+      let r := normalize_distribution F_ops (gkey_of shape axes) (bkey_of shape axes) (groups_of shape axes) (t_cells (t_nth 3 t)) in
+      Nd [L 1; Nd [of_cells (fst r); of_cells (fst (snd r)); of_cells (snd (snd r))]]
+    else Nd [L 0; L 4]
+  else if (op =? 9)%Z then
+    let shape := t_nats (t_nth 1 t) in let axes := t_nats (t_nth 2 t) in
+    of_cells (unnormalize_distribution F_ops (bkey_of shape axes) (t_cells (t_nth 4 t)) (t_cells (t_nth 5 t)) (t_cells (t_nth 3 t)))
   else Nd [L 0; L (-1)].
